@@ -4,14 +4,43 @@ import os
 
 # property -> rules deciding its structural clauses (DESIGN.md section 4)
 PROPS = {
-    'C01': ['DISPATCH', 'ACDUAL', 'ORDTOTAL', 'FRAMERESET'],
+    'C01': ['DISPATCH', 'ACDUAL', 'ORDTOTAL', 'FRAMERESET', 'MERGE'],
     'C02': ['UNIONCONTRIB', 'PRODUCT', 'WORKLIST', 'COW'],
     'C03': ['SIZEEQ', 'WORKLIST', 'COW'],
-    'C07': ['DISPATCH', 'ACDUAL'],
+    'C04': ['KIND', 'SIMMAP'],
+    'C05': ['SIMMAP', 'KIND', 'COW'],
+    'C07': ['DISPATCH', 'ACDUAL', 'MERGE'],
+    'C08': ['UNIONCONTRIB', 'PRODUCT', 'WORKLIST', 'INIT'],
     'C09': ['DISPATCH', 'ACDUAL', 'MEMO', 'HASHEQ', 'ORDTOTAL'],
     'C10': ['UNIONCONTRIB', 'PRODUCT', 'PAIRFIELD', 'FINCHK', 'WORKLIST', 'COW'],
     'C11': ['COW'],
+    'C14': ['KIND', 'COW'],
+    'C19': ['KIND', 'SIMMAP', 'DISPATCH'],
     'C20': ['INIT', 'FALLOFF', 'PAIRFIELD'],
+}
+
+# (property, rule) -> regex on the repo-relative file: only sites in matching files are attributed to that
+# property (rule health — floors, anchors — is always judged on all sites)
+FILTER = {
+    ('C01', 'DISPATCH'): r'explicit_tree_incl\.cc|aut_base\.hh',
+    ('C01', 'ACDUAL'): r'explicit_tree_incl|down_tree_|tree_incl_down|antichain',
+    ('C01', 'ORDTOTAL'): r'explicit_tree',
+    ('C01', 'MERGE'): r'explicit_tree|antichain',
+    ('C07', 'DISPATCH'): r'bdd_|aut_base\.hh',
+    ('C07', 'ACDUAL'): r'up_tree_incl_fctor|down_tree_|tree_incl_|antichain',
+    ('C07', 'MERGE'): r'tree_incl_up\.hh|antichain',
+    ('C09', 'DISPATCH'): r'explicit_finite|aut_base\.hh',
+    ('C09', 'ACDUAL'): r'explicit_finite|antichain',
+    ('C09', 'ORDTOTAL'): r'explicit_finite|ordered_antichain',
+    ('C02', 'UNIONCONTRIB'): r'explicit_tree', ('C02', 'PRODUCT'): r'explicit_tree', ('C02', 'WORKLIST'): r'explicit_tree', ('C02', 'COW'): r'explicit_tree',
+    ('C03', 'SIZEEQ'): r'explicit_tree', ('C03', 'WORKLIST'): r'explicit_tree', ('C03', 'COW'): r'explicit_tree',
+    ('C05', 'COW'): r'explicit_tree', ('C05', 'KIND'): r'explicit_tree',
+    ('C04', 'KIND'): r'explicit_tree',
+    ('C08', 'UNIONCONTRIB'): r'bdd_', ('C08', 'PRODUCT'): r'bdd_', ('C08', 'WORKLIST'): r'bdd_', ('C08', 'INIT'): r'bdd_|mtbdd|symbolic',
+    ('C10', 'UNIONCONTRIB'): r'explicit_finite', ('C10', 'PRODUCT'): r'explicit_finite', ('C10', 'WORKLIST'): r'explicit_finite',
+    ('C10', 'COW'): r'explicit_finite', ('C10', 'FINCHK'): r'explicit_finite',
+    ('C14', 'COW'): r'explicit_tree', ('C14', 'KIND'): r'explicit_tree|explicit_finite|bdd_',
+    ('C19', 'DISPATCH'): r'aut_base\.hh|explicit_tree_incl\.cc', ('C19', 'KIND'): r'explicit_tree',
 }
 
 _mods = {}
